@@ -142,13 +142,14 @@ def check_case(ctx, case):
 
     X, Y, Z = H.mineral(), other(), H.mineral(A0=gen.haar(rng, H.n))
     F = H.F0.copy()
-    gr = H.get_regime_fn()   # same regime delivery as the paired runs above
+    gr = H.get_regime_fn()   # same regime delivery and solver keyword arguments as the paired runs above
+    skw = H.solver_kw()
     with warnings.catch_warnings():
         warnings.simplefilter("ignore")
         try:
             for (a, b) in zip(H.ts[:-1], H.ts[1:]):
                 Y.update_orientations(H.params, F, H.Lfun, (a, b, H.posfun))
-                Fn = X.update_orientations(H.params, F, H.Lfun, (a, b, H.posfun), get_regime=gr)
+                Fn = X.update_orientations(H.params, F, H.Lfun, (a, b, H.posfun), get_regime=gr, **skw)
                 Z.update_orientations(H.params, F @ np.diag([1.0, 2.0, 0.5]), H.Lfun, (a, b, H.posfun), get_regime=gr)
                 F = Fn
             ctx.check("c:interleaving_bit_identical", _same(X, m_multi), case)
@@ -159,8 +160,8 @@ def check_case(ctx, case):
             F1 = F2 = H.F0.copy()
             for (a, b) in zip(H.ts[:-1], H.ts[1:]):
                 Fin = F1
-                F1 = pydrex.minerals.update_all([X1, Y1], H.params, Fin.copy(), H.Lfun, (a, b, H.posfun), get_regime=gr)
-                F2 = pydrex.minerals.update_all([Y2, X2], H.params, Fin.copy(), H.Lfun, (a, b, H.posfun), get_regime=gr)
+                F1 = pydrex.minerals.update_all([X1, Y1], H.params, Fin.copy(), H.Lfun, (a, b, H.posfun), get_regime=gr, **skw)
+                F2 = pydrex.minerals.update_all([Y2, X2], H.params, Fin.copy(), H.Lfun, (a, b, H.posfun), get_regime=gr, **skw)
             ctx.check("c:update_all_order_bit_identical", _same(X1, X2) and _same(Y1, Y2), case)
             ctx.check("c:update_all_same_F", float(np.abs(F1 - F2).max()) <= 2 * tol_of(H.N) * max(1.0, np.abs(F1).max()), case)
         except Exception as e:
